@@ -54,7 +54,7 @@ fn parse<T: clap::Args>(flags: &[&str]) -> Result<T, String> {
 }
 
 const BACKENDS: &[(&str, &[&[&str]])] = &[
-    ("rust", &[&[], &["--async=all"], &["--ownership=borrowing"], &["--ownership=borrowing-duplicate-if-necessary"], &["--std-feature"], &["--stubs"], &["--merge-structurally-equal-types"], &["--map-type=std::collections::HashMap"], &["--generate-all", "--async=all", "--stubs"]]),
+    ("rust", &[&["--generate-all"], &["--generate-all", "--async=all"], &["--generate-all", "--ownership=borrowing"], &["--generate-all", "--ownership=borrowing-duplicate-if-necessary"], &["--generate-all", "--std-feature"], &["--generate-all", "--stubs"], &["--generate-all", "--merge-structurally-equal-types"], &["--generate-all", "--map-type=std::collections::HashMap"], &["--generate-all", "--merge-structurally-equal-types", "--ownership=borrowing-duplicate-if-necessary", "--async=all", "--stubs"], &[]]),
     ("c", &[&[], &["--async=all"], &["--autodrop-borrows=yes"], &["--no-sig-flattening"], &["--no-helpers"]]),
     ("cpp", &[&[]]),
     ("csharp", &[&["--runtime=native-aot"], &["--runtime=native-aot", "--generate-stub"], &["--runtime=mono"], &["--runtime=native-aot", "--with-wit-results", "--internal"]]),
@@ -222,6 +222,25 @@ fn ty(r: &mut Rng, named: &[String], depth: u32, async_ok: bool) -> String {
 fn synth_world(seed: u64, async_ok: bool) -> String {
     let mut r = Rng(seed);
     let mut s = String::from("package verif:synth;\n\n");
+    // foreign packages whose interfaces share their last name segment (so that
+    // per-package import lists have ties on it)
+    let mut foreign: Vec<(String, Vec<String>)> = vec![];
+    for d in 0..r.pick(4) {
+        let seg = ["types", "api", "types", "core"][r.pick(4)];
+        let mut body = String::new();
+        let mut tys = vec![];
+        for k in 0..1 + r.pick(3) {
+            let tn = format!("d{d}-t{k}");
+            match r.pick(3) {
+                0 => body.push_str(&format!("    record {tn} {{ x: u32, y: {} }}\n", prim(&mut r))),
+                1 => body.push_str(&format!("    enum {tn} {{ a, b, c }}\n")),
+                _ => body.push_str(&format!("    type {tn} = {};\n", prim(&mut r))),
+            }
+            tys.push(tn);
+        }
+        s.push_str(&format!("package verif:dep{d} {{\n  interface {seg} {{\n{body}  }}\n}}\n\n"));
+        foreign.push((format!("verif:dep{d}/{seg}"), tys));
+    }
     let nif = 3 + r.pick(6);
     let mut ifnames = BTreeSet::new();
     let mut ifaces: Vec<(String, Vec<String>)> = vec![];
@@ -230,6 +249,15 @@ fn synth_world(seed: u64, async_ok: bool) -> String {
         let mut used = BTreeSet::new();
         let mut named: Vec<String> = vec![];
         let mut body = String::new();
+        for (path, tys) in &foreign {
+            if r.pick(2) == 0 {
+                let t = &tys[r.pick(tys.len())];
+                if used.insert(t.clone()) {
+                    body.push_str(&format!("  use {path}.{{{t}}};\n"));
+                    named.push(t.clone());
+                }
+            }
+        }
         // use types from an earlier interface
         if !ifaces.is_empty() && r.pick(2) == 0 {
             let (other, types) = &ifaces[r.pick(ifaces.len())];
